@@ -63,6 +63,8 @@ def work(task):
     try:
         E = _engine(task["root"], task)
         E.merge_enabled = task.get("merge", True)
+        E.second_solver = bool(task.get("second_solver"))
+        E.second_budget = int(task.get("second_solver") or 0)
         if "fp_range" in task:
             E.fp_range = tuple(task["fp_range"])
         m = _harness(E, task["harness"])
@@ -332,6 +334,9 @@ def execute(prop, tier, seed):
         a["wall_s"] += r.get("task_wall_s", 0)
         a["fp_uses"].update(tuple(x) for x in r.get("fp_uses", []))
         a["assumptions"].update(r.get("assumptions", []))
+        for k, v in (r.get("second") or {}).items():
+            a.setdefault("second", {})
+            a["second"][k] = a["second"].get(k, 0) + v
         a["completed"] += r.get("completed", 0)
     run.job_results = agg
     by_name = {t["name"]: t for t in tasks}
@@ -506,6 +511,7 @@ def write_evidence(prop, run, tier, seed):
         "native_replays": int(run.native_runs),
         "selfcheck_vectors": int(run.selfcheck_runs),
         "float_lemmas": run.fp,
+        "second_solver_cvc5": _second_total(agg),
         "inconclusive_reasons": run.problems[:20],
         "known_findings_hit": [k.get("id", "") for k, _, _ in run.known_hits],
         "per_job": {name: {"status": a["status"], "paths": a["stats"].get("paths", 0), "queries": a["stats"].get("queries", 0),
@@ -522,6 +528,14 @@ def write_evidence(prop, run, tier, seed):
     with open(os.path.join(VERIF, "evidence", f"{prop.ID}.json"), "w") as f:
         json.dump(ev, f, indent=1, sort_keys=False)
     return ev
+
+
+def _second_total(agg):
+    tot = {}
+    for a in agg.values():
+        for k, v in (a.get("second") or {}).items():
+            tot[k] = tot.get(k, 0) + v
+    return tot
 
 
 def _z3_version():
